@@ -11,6 +11,7 @@ import (
 	"math"
 	"math/rand"
 	"os"
+	"sort"
 	"strconv"
 )
 
@@ -85,6 +86,23 @@ func nonNegInt() int64 {
 	return v
 }
 
+// generator statistics (SEQDIFF_STATS=1 prints them to stderr at exit; not part of the protocol)
+var stats = map[string]int{}
+
+func printStats() {
+	if os.Getenv("SEQDIFF_STATS") == "" {
+		return
+	}
+	keys := make([]string, 0, len(stats))
+	for k := range stats {
+		keys = append(keys, k)
+	}
+	sort.Strings(keys)
+	for _, k := range keys {
+		fmt.Fprintf(os.Stderr, "STAT %s %d\n", k, stats[k])
+	}
+}
+
 func emit(req, impl, mon string) {
 	fmt.Fprintf(out, "REQ %s\nIMPL %s\nMON %s\n", req, impl, mon)
 }
@@ -100,6 +118,7 @@ func main() {
 	rng = rand.New(rand.NewSource(seed))
 	out = bufio.NewWriterSize(os.Stdout, 1<<20)
 	defer out.Flush()
+	defer printStats()
 	switch mode {
 	case "f64":
 		runF64(count)
